@@ -1,7 +1,9 @@
 /-
   Props/C15Full.lean — the module audited for C15: Props/C15Velocity.lean (and what it imports) together with
-  Props/C15Ieee.lean (the IEEE / real-analysis instantiations). All in namespace Rosu.C15.
+  Props/C15Ieee.lean (the IEEE / real-analysis instantiations) and Props/C15IeeeShift.lean (shift invariance on IEEE doubles
+  with integer times, via Lemmas/ShiftLawsOn.lean, Props/C15ShiftOn.lean, Props/C15ShiftLinesOn.lean). All in namespace Rosu.C15.
 -/
 import RosuModel.Props.C15Velocity
 import RosuModel.Props.C15Ieee
 import RosuModel.Props.C15IeeeDecoded
+import RosuModel.Props.C15IeeeShift
